@@ -1000,10 +1000,12 @@ class mru_cache(object):
                         cache.clear() 
                         queue.clear()
                     else: # purge most recently used cache entry
-                        k = queue_pop()
+                        recorded = bool(queue) # False if no use is recorded (e.g. after load)
+                        k = queue_pop() if recorded else key
                         if cache.archived(): cache.dump(k)
                         try: del cache[k]
                         except KeyError: pass #FIXME: possible none purged
+                        if not recorded: return result
 
             # record recent use of this key
             queue_append(key)
